@@ -12,7 +12,7 @@ import re
 
 from sa import ir, cfg, logic, facts, context
 from sa.ir import fmt, walk, short
-from sa.logic import canon, subst
+from sa.logic import canon, subst, Not
 from .common import NS, KINDS, PARSE_VEC, PARSE_ARGV, callgraph, one, elem_calls
 
 ALLOWED = NS + "parsing_error"
@@ -343,6 +343,8 @@ def run(ctx):
         # ---- R04.6: documented conditions that must raise do raise (positional limit in every mode; syntax check for every token ahead of `--`)
         ctx.rule("R04.6", "the documented rejections `more positionals than accepted` and `malformed dash token ahead of --` are in force on every path (R12.3, R12.6 re-evaluated)")
         share(ctx, "C12", ("R12.3", "R12.6"), "R04.6", "rejection obligations shared with C12", 4)
+        # "given twice" and "required without any source" are judged on the *given* flag: an empty value given on the command line counts as given
+        share(ctx, "C03", ("R03.1", "R03.3"), "R04.6", "given-ness obligations shared with C03 (the empty string is a value)", 6)
         share(ctx, "C02", ("R02.4",), "R04.5", "token-syntax obligations shared with C02 (a well-formed --name=value token is never rejected for its value)", 1)
     ctx.assume("beyond R04.5 the accept/reject boundary itself (error raised *exactly* under the documented conditions) is not decided")
 
@@ -389,6 +391,9 @@ def justify_thrower(ctx, prog, lg, fn, n, nm, env, st):
                     m = re.match(r'^\((\d+) < (.*)\.(size|length)\(\)\)$', a)
                     if m and m.group(2) == recv_c and int(m.group(1)) >= k - 1 and logic.entails(st, ("a", a), lg.axioms)[0]:
                         return True, "substr(%d) under %s" % (k, a)
+            # ... or non-emptiness for position 1
+            if k == 1 and logic.entails(st, Not(("a", "%s.empty()" % recv_c)), lg.axioms)[0] is True:
+                return True, "substr(1) under !%s.empty()" % recv_c
             return False, "position %d is not covered by a known prefix of %s" % (k, recv_c)
         # sep / sep + 1 with sep = recv.find(...) and facts |- sep != npos
         base = pos
@@ -412,6 +417,39 @@ def justify_thrower(ctx, prog, lg, fn, n, nm, env, st):
                         return True, "position is the result of %s.find(...) and `%s != npos` holds (find returns < size())" % (canon(recv), v)
                 return False, "`%s != npos` is not established" % v
         return False, "unrecognised position expression %s" % fmt(pos)
+    if nm == "at":
+        # map::at(K) with a literal key on a data member: a class invariant when every constructor inserts K and nothing removes it
+        recv = ir.unwrap(n.get("this"))
+        args = [a for a in n.get("args", []) if not (isinstance(a, dict) and a.get("k") == "defarg")]
+        lits = [y["v"] for a in args for y in walk(a) if isinstance(y, dict) and y.get("k") == "lit" and y.get("t") == "str"]
+        if isinstance(recv, dict) and recv.get("k") == "member" and recv.get("field") and len(lits) == 1 and fn.cls:
+            fld = recv["field"]
+            ctors = [g for g in prog.methods_of(fn.cls) if g.kind == "ctor" and g.has_cfg and not g.flags.get("move_ctor") and not g.flags.get("copy_ctor")]
+            def inserts(g):
+                for _, _, e in g.all_elems():
+                    if e.get("expr") is None:
+                        continue
+                    for y in walk(e["expr"]):
+                        if isinstance(y, dict) and y.get("k") == "call" and short(y.get("name") or "") in ("emplace", "insert", "try_emplace", "operator[]", "insert_or_assign") \
+                                and isinstance(ir.unwrap(y.get("this")), dict) and ir.unwrap(y["this"]).get("field") == fld \
+                                and lits[0] in [z["v"] for z in walk(y) if isinstance(z, dict) and z.get("k") == "lit" and z.get("t") == "str"]:
+                            return True
+                return False
+            removers = []
+            for g in prog.fns.values():
+                if not g.has_cfg or not g.file.startswith("/repo/"):
+                    continue
+                for _, _, e in g.all_elems():
+                    if e.get("expr") is None:
+                        continue
+                    for y in walk(e["expr"]):
+                        if isinstance(y, dict) and y.get("k") == "call" and short(y.get("name") or "") in ("erase", "clear", "extract", "swap") and y.get("this") is not None \
+                                and isinstance(ir.unwrap(y["this"]), dict) and ir.unwrap(y["this"]).get("field") == fld:
+                            removers.append(short(g.qual))
+            if ctors and all(inserts(g) for g in ctors) and not removers:
+                return True, "at(\"%s\") on %s: every constructor inserts that key and no function erases from the map" % (lits[0], short(fld))
+            return False, "the key \"%s\" of %s is not a class invariant (%s)" % (lits[0], short(fld), "removed in %s" % sorted(set(removers)) if removers else "not inserted by every constructor")
+        return False, "no justification known for at() on %s" % fmt(recv)[:40]
     if nm in ("compare", "erase", "replace", "insert", "copy"):
         # basic_string::f(pos, ...) throws out_of_range only for pos > size(): position 0 is always valid
         args = [a for a in n.get("args", []) if not (isinstance(a, dict) and a.get("k") == "defarg")]
@@ -422,3 +460,52 @@ def justify_thrower(ctx, prog, lg, fn, n, nm, env, st):
             return True, "%s(0, ...) cannot throw" % nm
         return False, "position %s of %s() is not known to be within the string" % (fmt(pos) if pos is not None else "?", nm)
     return False, "no justification known for %s" % nm
+
+
+def std_thrower_obligations(ctx, rule, entries, path_name, cg=None, delegated=None):
+    """the standard-library throwers (substr / at / erase / compare / stoi ...) reachable from the entry functions, each
+    justified against the facts of every calling context - the thrower part of R04.1 for another entry point"""
+    prog = ctx.prog
+    cg = cg or callgraph(ctx)
+    fe = facts.FactsEngine(prog, cg)
+    lg = fe.lg
+    throwers = {}
+
+    def on_call(fn, bid, idx, n, env, envkey, init, chain, st):
+        nm = n.get("name") or ""
+        if n.get("k") == "construct":
+            nm = (n.get("ctor") or "").split("(")[0]
+        for rx, what in STD_THROWERS:
+            if re.search(rx, nm):
+                t = throwers.setdefault((fn.id, short(nm), fmt(n)), {"fn": fn, "node": n, "what": what, "ctxs": []})
+                t["ctxs"].append((chain, env, st, bid, idx))
+
+    ncontexts = 0
+    for entry in entries:
+        w = context.Walk(prog, cg, fe)
+        w.run(entry, on_call=on_call, on_context=lambda *a, **k: None, skip=lambda fid: fid.startswith("nitro::except::raise("))
+        ncontexts += w.contexts
+    n = 0
+    for (fid, nm, text), t in sorted(throwers.items(), key=lambda kv: kv[0]):
+        fn, node = t["fn"], t["node"]
+        if not fn.file.startswith("/repo/"):
+            continue
+        n += 1
+        construct = "std-thrower:%s:%s" % (nm, text[:60])
+        where = (fn, node.get("ln"))
+        dl = delegated(fn) if delegated else None
+        if dl:
+            ctx.ok(rule, fn, construct, dl, where)
+            continue
+        ok_all, why, chain = True, "", ()
+        for (chain, env, st, bid, idx) in t["ctxs"]:
+            ok, why = justify_thrower(ctx, prog, lg, fn, node, nm, env, st)
+            if not ok:
+                ok_all = False
+                break
+        if ok_all:
+            ctx.ok(rule, fn, construct, why, where)
+        else:
+            chain_s = " -> ".join(short(c.split("(")[0].split("#")[0]) for c in chain)
+            ctx.bad(rule, fn, construct, "%s can throw %s on the %s path (%s) and no guard discharges it: %s" % (text[:80], t["what"], path_name, chain_s, why), where)
+    return n, ncontexts
